@@ -76,6 +76,10 @@ fn witnesses() -> Vec<(SysCfg, u64, Vec<Op>)> {
 fn main() {
     sys::maybe_child();
     let a = parse_args();
+    if a.stream == "midwrite" {
+        midwrite_stream(&a);
+        return;
+    }
     let crashes = match a.stream.as_str() {
         "flushwin" => false,
         other => {
@@ -164,6 +168,115 @@ fn main() {
                 let (class, detail) = f.split_once('\t').unwrap();
                 st.oracle_fail(i, class, detail)
             }
+        }
+    }
+    st.finish();
+}
+
+/// `midwrite` stream (oracle only): a read that overlaps the flusher's file writes (after the
+/// `.zones` metadata, before / after the column files) must not change what later reads return.
+/// Known finding C03-midwrite-read-poisons-caches: per-segment caches filled during the write keep
+/// entries without the `event_id` column; later reads hand out colliding synthetic ids and the
+/// response writer drops rows, for the rest of the process lifetime.
+pub fn midwrite_stream(a: &snel_harness::out::Args) {
+    use serde_json::json;
+    use snel_harness::sys::Session;
+    let mut st = Stream::create(&a.out, "midwrite");
+    for i in 0..a.cases {
+        if a.only.is_some_and(|o| o != i) {
+            continue;
+        }
+        let mut r = Rng::for_case(a.seed, "midwrite", i);
+        let cfg = SysCfg { event_per_zone: 1 + r.below(2) as usize, fill_factor: 1 + r.below(2) as usize, ..Default::default() };
+        let cap = cfg.capacity() as u64;
+        let root = a.out.join(format!("midwrite-{i}"));
+        let _ = std::fs::remove_dir_all(&root);
+        let mut s = Session::start(&root, &cfg);
+        assert!(s.cmd("DEFINE ev0 FIELDS { k: \"int\" }").map(|x| x.ok()).unwrap_or(false));
+        let point = match r.below(3) {
+            0 => "zonewriter.meta_written",
+            1 => "zonewriter.cols_written",
+            _ => "free", // no parking: a query right after every STORE races the free-running flusher
+        };
+        let rounds = 1 + r.below(3);
+        let mut k = 0u64;
+        let mut desc = format!("midwrite cap={cap} point={point}");
+        let mut bad: Option<String> = None;
+        let mut during_bad = false;
+        if point == "free" {
+            let n = cap * (3 + r.below(6));
+            for _ in 0..n {
+                k += 1;
+                assert!(s.cmd(&format!("STORE ev0 FOR c{} PAYLOAD {{\"k\":{k}}}", r.below(2))).map(|x| x.ok()).unwrap_or(false));
+                let q = match r.below(3) {
+                    0 => "QUERY ev0 WHERE k = 0 RETURN [k]".to_string(),
+                    1 => "QUERY ev0 RETURN [k]".to_string(),
+                    _ => format!("QUERY ev0 WHERE k >= {} RETURN [k]", 1 + r.below(k)),
+                };
+                let _ = s.cmd(&q);
+            }
+            desc.push_str(&format!(" | {n} stores each followed at once by a query"));
+            s.ctl(json!({"ctl": "await_flush"}));
+            for rep in 0..3 {
+                let after = s.cmd("QUERY ev0 RETURN [k]").expect("query");
+                let mut got: Vec<i64> = after.col("k").iter().filter_map(|v| v.as_i64()).collect();
+                got.sort();
+                got.dedup();
+                let want: Vec<i64> = (1..=k as i64).collect();
+                if got != want && bad.is_none() {
+                    bad = Some(format!("after all flushes completed (rep {rep}) QUERY returns {got:?}, stored 1..={k}"));
+                }
+            }
+        }
+        for round in 0..(if point == "free" { 0 } else { rounds }) {
+            s.ctl(json!({"ctl": "arm_park", "point": point}));
+            for _ in 0..cap {
+                k += 1;
+                assert!(s.cmd(&format!("STORE ev0 FOR c{} PAYLOAD {{\"k\":{k}}}", r.below(2))).map(|x| x.ok()).unwrap_or(false));
+            }
+            let parked = s.ctl(json!({"ctl": "wait_parked", "point": point, "ms": 5000})).and_then(|v| v["parked"].as_u64()).unwrap_or(0);
+            if parked == 0 {
+                desc.push_str(" (not parked)");
+            }
+            // reads overlapping the file writes
+            let which = r.below(3);
+            let q = match which {
+                0 => "QUERY ev0 RETURN [k]".to_string(),
+                1 => format!("QUERY ev0 WHERE k = {} RETURN [k]", 1 + r.below(k)),
+                _ => "QUERY ev0 COUNT".to_string(),
+            };
+            desc.push_str(&format!(" | round{round}: park, {q}"));
+            let during = s.cmd(&q);
+            if which == 0 {
+                let mut got: Vec<i64> = during.map(|d| d.col("k").iter().filter_map(|v| v.as_i64()).collect()).unwrap_or_default();
+                got.sort();
+                got.dedup();
+                if got.len() as u64 != k {
+                    during_bad = true; // the racy in-flight state itself (separate finding)
+                }
+            }
+            s.ctl(json!({"ctl": "release_all"}));
+            s.ctl(json!({"ctl": "await_flush"}));
+            // after the flush has completed every stored event must be returned, repeatedly
+            for rep in 0..3 {
+                let after = s.cmd("QUERY ev0 RETURN [k]").expect("query");
+                let mut got: Vec<i64> = after.col("k").iter().filter_map(|v| v.as_i64()).collect();
+                got.sort();
+                got.dedup();
+                let want: Vec<i64> = (1..=k as i64).collect();
+                if got != want && bad.is_none() {
+                    bad = Some(format!("after round {round} (rep {rep}) the completed flush returns {got:?}, stored 1..={k}"));
+                }
+            }
+        }
+        drop(s);
+        let _ = std::fs::remove_dir_all(&root);
+        st.tally(point);
+        if during_bad { st.tally("read_during_write_incomplete"); }
+        st.case(&desc, "-", true);
+        match bad {
+            None => st.oracle_ok(),
+            Some(b) => st.oracle_fail(i, "midwrite-read-poisons-caches", &format!("{b}; {desc}")),
         }
     }
     st.finish();
